@@ -103,6 +103,22 @@ def prefix_start_after_error_leaf(value: str, line: int, col: int, tt: int) -> b
     return node.end_pos == walk(err_end, 'x')
 
 
+def prefix_start_after_first_indent_error(prefix: str, tt: int) -> bool:
+    """
+    require: len(prefix) <= 3 and 0 <= tt <= 1
+    """
+    # the module starts with a zero-width INDENT / ERROR_DEDENT error leaf (indented first statement); the next
+    # leaf carries the whole leading prefix (comments, blank lines): that prefix starts at (1, 0)
+    start = walk((1, 0), prefix, bom_allowed=True)
+    err = pt.PythonErrorLeaf(('INDENT', 'ERROR_DEDENT')[tt], '', start)
+    leaf = pt.Name('x', start, prefix)
+    pt.PythonNode('file_input', [err, leaf])
+    got = leaf.get_start_pos_of_prefix()
+    if got != (1, 0):
+        return _no('first real leaf at %r after a leading %s error leaf, prefix %r: prefix start %r' % (start, err.token_type, prefix, got))
+    return True
+
+
 # ---------------------------------------------------------------------------------------------
 # C15: line splitting
 def split_lines_laws(s: str) -> bool:
